@@ -44,8 +44,9 @@ type TxOp struct {
 }
 
 type Op struct {
-	K    string `json:"k"` // tx connect disconnect stall unstall wait
+	K    string `json:"k"` // tx noop connect disconnect stall unstall wait racefirst
 	Peer int    `json:"peer"`
+	Size int    `json:"size,omitempty"` // noop: bytes reserved by a build that then adds nothing
 	Req  int    `json:"req,omitempty"`
 	Tx   []TxOp `json:"tx,omitempty"`
 }
@@ -98,8 +99,11 @@ func Gen(t *rapid.T, big bool) Case {
 				}
 				op.Tx = append(op.Tx, x)
 			}
-		case k < 12:
+		case k < 11:
 			op.K = "connect"
+		case k < 12:
+			op.K = "noop"
+			op.Size = rapid.SampledFrom([]int{0, 100, 1000}).Draw(t, "noopsize")
 		case k < 14:
 			op.K = "disconnect"
 		case k < 16:
@@ -124,6 +128,9 @@ func Gen(t *rapid.T, big bool) Case {
 // limit can never be granted; the callers of the allocator never make one).
 func clamp(c *Case) {
 	for i := range c.Ops {
+		if uint64(c.Ops[i].Size) > c.PerPeer || uint64(c.Ops[i].Size) > c.Total {
+			c.Ops[i].Size = 0
+		}
 		tot := uint64(0)
 		for j := range c.Ops[i].Tx {
 			sz := uint64(c.Ops[i].Tx[j].Size)
@@ -235,6 +242,7 @@ type queueRec struct {
 	Q            *messagequeue.MessageQueue
 	ShutdownCall bool // Shutdown() called through the peer manager
 	Callback     bool // onShutdown callback ran
+	CreatedAt    int  // index of the op during which the queue was created
 }
 
 type recQueue struct {
@@ -259,6 +267,7 @@ type Obs struct {
 	FinalTotal                  uint64
 	FinalPending                int
 	RacedFirstSends             bool // several first sends to a peer were released together
+	NoopBuilds                  int  // builds that reserved memory and added nothing
 	ExitWhileBuilding           bool // a queue finished winding down while a message for its peer was waiting for memory or being built
 	EventsAtFinal               int // allocator events recorded up to the final observation (the teardown that follows releases every peer)
 	IdleViolations              []string          // allocation non-zero while the queue was idle
@@ -439,6 +448,8 @@ func Run(t *testing.T, c Case) *Obs {
 		alloc := &recAlloc{inner: allocator.NewAllocator(c.Total, c.PerPeer), lastFailed: map[peer.ID]bool{}}
 		obs.Alloc = alloc
 		qn := 0
+		curOp := 0
+		lastDisc := map[peer.ID]int{} // op index of the peer's latest disconnect that left it without a connection
 		var factoryGate chan struct{} // when set, creating a queue for gatedPeer blocks (the peer table is locked meanwhile)
 		var gatedPeer peer.ID
 		prog := &inProgress{n: map[peer.ID]int{}}
@@ -446,7 +457,7 @@ func Run(t *testing.T, c Case) *Obs {
 			if g := factoryGate; g != nil && p == gatedPeer {
 				<-g
 			}
-			rec := &queueRec{Peer: p, N: qn}
+			rec := &queueRec{Peer: p, N: qn, CreatedAt: curOp}
 			qn++
 			if os.Getenv("VERIF_DEBUG") != "" {
 				fmt.Printf("--- queue %d created for %s\n%s\n", rec.N, p, debug.Stack())
@@ -562,9 +573,16 @@ func Run(t *testing.T, c Case) *Obs {
 		}
 		for opIdx, op := range c.Ops {
 			p := Peers[op.Peer%NPeers]
+			curOp = opIdx
 			switch op.K {
 			case "tx":
 				issue(opIdx, op)
+			case "noop":
+				// a build that reserves memory and then adds nothing, as a transaction of a response stream that
+				// was closed in the meantime does
+				obs.NoopBuilds++
+				sz := uint64(op.Size)
+				go h.AllocateAndBuildMessage(p, sz, func(*messagequeue.Builder) {})
 			case "racefirst":
 				// first sends to a peer with no queue yet, arriving together while the peer table is locked by
 				// the (slow) creation of another peer's queue
@@ -612,6 +630,9 @@ func Run(t *testing.T, c Case) *Obs {
 				if adapter.refs[p] > 1 {
 					adapter.Disconnected(p)
 				} else {
+					if net.IsConnected(Self, p) {
+						lastDisc[p] = opIdx
+					}
 					net.Disconnect(Self, p)
 				}
 			case "stall":
@@ -658,8 +679,18 @@ func Run(t *testing.T, c Case) *Obs {
 		mu.Unlock()
 		for _, p := range Peers {
 			obs.FinalAllocated[p] = alloc.inner.AllocatedForPeer(p)
-			if adapter.refs[p] == 0 && !net.IsConnected(Self, p) && live(p) > 0 {
-				obs.LiveAfterLastDisconnect = append(obs.LiveAfterLastDisconnect, fmt.Sprintf("%s still has %d live queue(s) after its last disconnect", p, live(p)))
+			if adapter.refs[p] == 0 && !net.IsConnected(Self, p) {
+				// queues that were there when the peer's last connection went away (one created afterwards by
+				// a build that adds nothing never connects and is not this property's concern)
+				n := 0
+				for _, q := range obs.Queues {
+					if d, ok := lastDisc[p]; q.Peer == p && !q.ShutdownCall && !q.Callback && ok && q.CreatedAt <= d {
+						n++
+					}
+				}
+				if n > 0 {
+					obs.LiveAfterLastDisconnect = append(obs.LiveAfterLastDisconnect, fmt.Sprintf("%s still has %d live queue(s) after its last disconnect", p, n))
+				}
 			}
 		}
 		obs.FinalTotal = alloc.inner.Stats().TotalAllocatedAllPeers
@@ -731,6 +762,9 @@ func Classify(v interface{ Label(string) }, c Case, o *Obs) {
 	}
 	if len(c.FailConn) > 0 {
 		v.Label("connect-failure")
+	}
+	if o.NoopBuilds > 0 {
+		v.Label("build-that-adds-nothing")
 	}
 	if len(c.FailSend) > 0 {
 		v.Label("send-failure")
@@ -870,11 +904,16 @@ func GenBacklog(t *rapid.T) Case {
 	c := Case{Retries: rapid.IntRange(1, 2).Draw(t, "retries"), PerPeer: 64 << 20, Total: 256 << 20}
 	p := rapid.IntRange(0, NPeers-1).Draw(t, "peer")
 	c.Ops = append(c.Ops, Op{K: "connect", Peer: p})
-	c.Ops = append(c.Ops, Op{K: "stall", Peer: p})
-	c.Ops = append(c.Ops, Op{K: "tx", Peer: p, Req: 0, Tx: []TxOp{{K: "block", Size: 100}}})
+	if rapid.IntRange(0, 3).Draw(t, "stall") > 0 {
+		c.Ops = append(c.Ops, Op{K: "stall", Peer: p})
+		c.Ops = append(c.Ops, Op{K: "tx", Peer: p, Req: 0, Tx: []TxOp{{K: "block", Size: 100}}})
+	}
 	n := rapid.IntRange(2, 6).Draw(t, "nparts")
 	for i := 0; i < n; i++ {
-		sz := rapid.SampledFrom([]int{60 * 1024, 100 * 1024, 250 * 1024, 300 * 1024, 400 * 1024, 500 * 1024}).Draw(t, "bsize")
+		if rapid.IntRange(0, 3).Draw(t, "noop") == 0 {
+			c.Ops = append(c.Ops, Op{K: "noop", Peer: p, Size: rapid.SampledFrom([]int{0, 1000}).Draw(t, "noopsize")})
+		}
+		sz := rapid.SampledFrom([]int{60 * 1024, 100 * 1024, 250 * 1024, 300 * 1024, 400 * 1024, 500 * 1024, 600 * 1024}).Draw(t, "bsize")
 		c.Ops = append(c.Ops, Op{K: "tx", Peer: p, Req: rapid.IntRange(0, NReqs-1).Draw(t, "req"), Tx: []TxOp{{K: "block", Size: sz}}})
 	}
 	if rapid.IntRange(0, 2).Draw(t, "disc") == 0 {
